@@ -23,7 +23,7 @@ MANDATORY = ["sample_before_read:Sampler", "sample_before_read:QuickSampler", "s
              "postselection_mutated_in_place", "param_set_between_reads", "circuit_edited_between_reads",
              "source_mutated_between_reads", "backend_swapped", "input_changed", "analyze_without_expected_after_expected",
              "loss_added_in_place", "circuit_replaced_more_loss", "postselection_rule_on_ruled_mode",
-             "tiny_reconfiguration"]
+             "tiny_reconfiguration", "herald_declared_in_place"]
 DECIDING = ["mon.twin_distribution_reads", "mon.twin_sampling_calls", "mon.analyze_postconditions"]
 BUDGET = {"quick": 30, "thorough": 480}
 ASSUMPTIONS = ["a twin built from the current public settings is the reference; distributions compared to 1e-12, seeded "
@@ -107,7 +107,7 @@ def history(ctx, lw, rng, kind):
         first = None
     observed_once = False
     for i in range(n_steps):
-        reconfig = ["edit", "param", "input", "circuit_same", "circuit_heralds"]
+        reconfig = ["edit", "param", "input", "circuit_same", "circuit_heralds", "herald_in_place"]
         if kind == "Sampler":
             reconfig += ["source_mut", "source_new", "backend", "detector"]
             obs = ["read", "sample", "n_inputs", "n_outputs"]
@@ -156,6 +156,28 @@ def history(ctx, lw, rng, kind):
                 k = obj.circuit.input_modes
                 obj.input_state = State(random_state(rng, k, int(rng.integers(1, 3))))
                 changed_since_obs = "input_changed"
+            elif step == "herald_in_place":
+                cc = obj.circuit
+                nn = cc.n_modes - len(cc._internal_modes)
+                free = [m for m in range(nn) if cc._map_mode(m) not in cc.heralds["input"]
+                        and cc._map_mode(m) not in cc.heralds["output"]]
+                if len(free) >= 2 and cc.input_modes >= 2:
+                    cc.herald(int(rng.integers(0, 2)), int(rng.choice(free)))
+                    new_in = State(random_state(rng, cc.input_modes, int(rng.integers(1, 3))))
+                    ctx.bucket("herald_declared_in_place")
+                    try:
+                        obj.input_state = new_in
+                    except Exception as e:  # noqa: BLE001
+                        try:        # would a freshly created object accept exactly these settings?
+                            (emu.Sampler(cc, new_in) if kind == "Sampler" else emu.QuickSampler(cc, new_in))
+                            ctx.violation(f"assigning the input state that matches the circuit's new herald raised "
+                                          f"{type(e).__name__}: {e}, but a freshly created {kind} accepts the same circuit "
+                                          f"and input", case={"history": trace}, mechanism="reconfiguration_rejected:" + kind,
+                                          monitor="fresh-twin (reconfiguration)")
+                        except Exception:  # noqa: BLE001
+                            pass
+                        raise
+                    changed_since_obs = "herald_declared_in_place"
             elif step == "circuit_same":
                 k = obj.circuit.input_modes
                 if rng.random() < 0.4:
